@@ -17,6 +17,7 @@ EXPLANATION = (
     "(R3 also, shared with C09.R4: the restart of a module runs at_sim_start on it again.) "
     "(R8) non-empty join errors are what ModuleRef::at_sim_end returns; R9) no explicit panic is reachable while a poisoning std lock guard is held in the net layer, outside an audited table (Gate::connect's wiring assertions). "
     '(R10) join handles leave a module only through the tear-down or the explicit reset_join_handles, and Runtime::finish returns Ok only on paths that found the tear-down result Ok. '
+    "(R11) the error list only grows: RuntimeError::merge/extend add their argument to the receiver's list on every returning path and take nothing out of it. "
     "Decides these necessary conditions only; not that healthy modules behave as if the faulty one fell silent.")
 ASSUMPTIONS = ["catch_unwind catches every unwinding panic (panic=unwind build)", "processing elements are simulator-side code, not covered by the statement"]
 
@@ -620,7 +621,69 @@ def r10_outcomes_not_forgotten(ctx):
     ctx.floor('successful returns of Runtime::finish', n_ok, 2)
 
 
+def r11_error_list_only_grows(ctx):
+    """run() lists exactly the failures that happened: the accumulating operations of the error list (`RuntimeError::merge` / `extend`) add
+    the argument to what the receiver already holds on every returning path, and never take anything out of the receiver (no swap /
+    replace / take / clear / truncate / drain ... of `self.inner` that is not followed by re-adding on the same path)."""
+    ctx.set_rule('C13.R11')
+    P = ctx.P
+    RE_ = 'des::runtime::error::RuntimeError::'
+    GROW = ('extend', 'append', 'push', 'extend_from_slice', 'extend_one', 'insert', 'push_back')
+    LOSE = ('clear', 'truncate', 'drain', 'retain', 'retain_mut', 'pop', 'remove', 'swap_remove', 'split_off', 'take', 'replace', 'swap', 'drain_filter', 'extract_if', 'dedup')
+
+    def self_inner(f, op, b):
+        t = peel(f.expr_operand(op, b, 'T'))
+        return t[0] == 'field' and len(t) > 2 and t[2] == 'inner' and any(isinstance(y, tuple) and y and y[0] == 'arg' and len(y) > 1 and y[1] == 1 for y in walk(t[1]))
+
+    def from_param(f, c):
+        # the added value comes from the function's argument (directly, or element-wise through its iterator)
+        return len(c.args) > 1 and any(isinstance(y, tuple) and y and y[0] == 'arg' and len(y) > 1 and y[1] == 2 for a in c.args[1:] for y in walk(f.expr_operand(a, c.b, 'T')))
+
+    def is_grow(f, c, depth=0):
+        last = c.name.split('::')[-1]
+        if last in GROW and c.args and self_inner(f, c.args[0], c.b):
+            return depth > 0 or from_param(f, c)
+        if depth == 0 and c.name.startswith(RE_) and c.args and from_param(f, c):
+            # a private recording helper of RuntimeError called on the receiver: it must add its argument to the list on every path
+            r = peel(f.expr_operand(c.args[0], c.b, 'T'))
+            g = P.fns.get(c.name)
+            if g is not None and g is not f and r[0] == 'arg' and r[1] == 1:
+                gp = [(p_, d_) for p_, o_, d_ in fn_paths(ctx, g) if o_ == 'return']
+                return bool(gp) and all(any(e[0] == 'c' and is_grow(g, e[1], 1) for e in path_stream(g, p_, d_)) for p_, d_ in gp)
+        return False
+
+    n = 0
+    for nm in ('merge', 'extend'):
+        f = P.fns.get(RE_ + nm)
+        if f is None:
+            ctx.violation('anchor:RuntimeError::' + nm, 'unresolved-anchor: ' + RE_ + nm)
+            continue
+        ctx.check(not f.writes_to_field('inner'), 'error-list-overwritten:' + nm, 'RuntimeError::%s does not assign the error list (it adds to it)' % nm, f.where())
+        n_p = 0
+        # loop form (`for e in iter { self.inner.push(..) }`): a path that leaves such a loop without a turn met an empty argument
+        loop_heads = set()
+        for c in f.calls():
+            if is_grow(f, c):
+                for lp in f.loops_containing(c.b):
+                    loop_heads.add(lp)
+        for path, outcome, decs in fn_paths(ctx, f):
+            if outcome != 'return':
+                continue
+            n_p += 1
+            calls = [e[1] for e in path_stream(f, path, decs) if e[0] == 'c']
+            grow = [i for i, c in enumerate(calls) if is_grow(f, c)]
+            lose = [i for i, c in enumerate(calls) if c.name.split('::')[-1] in LOSE and c.args and any(self_inner(f, a, c.b) for a in c.args if isinstance(a, dict) and a.get('k') in ('copy', 'move'))]
+            ok = (bool(grow) or any(h in path for h in loop_heads)) and all(any(g > l for g in grow) for l in lose)
+            ctx.check(ok, 'error-list-grows:' + nm,
+                      'RuntimeError::%s adds its argument to the errors the receiver already holds on every returning path, and takes nothing out of the receiver '
+                      'without adding it back (a path that swaps/replaces/clears the list, or returns without appending, loses recorded failures: '
+                      'run() would no longer list every module that panicked)' % nm, f.where_path(path), {'grow_calls': len(grow), 'losing_calls': len(lose)})
+        n += n_p
+    ctx.floor('returning paths of RuntimeError::merge/extend', n, 2)
+
+
 def run(ctx):
+    r11_error_list_only_grows(ctx)
     r10_outcomes_not_forgotten(ctx)
     r8_join_errors_reported(ctx)
     r9_no_poisoning(ctx)
